@@ -128,6 +128,24 @@ ADDENDA = {
     "C19": "Round 8: a geotherm file written in whole numbers.",
 }
 
+ADDENDA2 = {
+    "C01": "Rounds 9-10: near-equal axial strains on a ladder of separations from 2e-5 to 1e-3, constant or varying along the volume grid.",
+    "C05": "Rounds 9-10: strain fractions continue smoothly to both ends of the volume grid; one data set in four calculated from another data set's directory.",
+    "C06": "Rounds 9-10: NT + 4 = NTV; a pressure grid written in whole numbers.",
+    "C09": "Rounds 9-10: the four flag combinations through the settings path (apply_symetry_on_elast_data); tables with row labels of their own.",
+    "C10": "Rounds 9-10: the rejection table replayed again after every accepted spelling was used in the process; two-argument spellings whose digits read like a four-index one.",
+    "C11": "Rounds 9-10: on a grid inside one piece of the interpolant the third quantity is the derivative of the returned gamma at every point, the ends included; integer-typed volume grids.",
+    "C12": "Rounds 9-10: every sixth configuration followed by a calculation on the same files and array shapes with another (T_MIN, DT) class.",
+    "C13": "Rounds 9-10: re-ordered volume blocks in a `python -O` child process (rejected or the same numbers).",
+    "C14": "Rounds 9-10: attribute-style names of the pressure base (c11s / c11t) as observed quantities, read isothermal-first.",
+    "C15": "Rounds 9-10: one list of output entries shared by both bases.",
+    "C17": "Rounds 9-10: a static table read again after the first parsed object was symmetry-filled in place; zone-centre q-points with small frequencies of either sign.",
+    "C18": "Rounds 9-10: a static table with the energy file's volume count and end volumes and other volumes in between.",
+    "C19": "Rounds 9-10: pressure steps with three decimals; a 13 x 482 table for extract-geotherm.",
+}
+for _k, _v in ADDENDA2.items():
+    ADDENDA[_k] = (ADDENDA[_k] + " " + _v) if _k in ADDENDA else _v
+
 NOT_YET = {
 }
 
